@@ -65,6 +65,7 @@ def execute(case, seed, choices=None):
     def on_child(child, process_obj):
         W.on_worker_started(child, process_obj)
     k.cfg['_on_child'] = on_child
+    k.cfg['_world'] = W
     k.cfg['_on_pass_end'] = W.on_pass_end
     k.cfg['_on_pass_begin'] = W.on_pass_begin
     k.cfg['_on_worker_created'] = W.on_worker_created
